@@ -154,3 +154,33 @@ def gen_union(rng, depth=0, maxdepth=3):
     if len(mem) < 2:
         mem = ["int", "str"]
     return _union(mem)
+
+
+# ------------------------------------------------------------------------------------------------
+# trigger neighbourhoods: unions built around each shipped rewriter's trigger, in every member order
+
+
+NEIGHBOURHOODS = {
+    "tuples": ["Tuple[()]", "Tuple[int]", "Tuple[int, int]", "Tuple[str]", "Tuple[str, str]", "Tuple[int, str]", "Tuple[A]", "Tuple[B, B]"],
+    "classes": ["A", "B", "C", "D", "M", "NoneType", "int", "X1", "X2", "R1", "Type[A]"],
+    "dicts": ["Dict[str, int]", "Dict[str, str]", "Dict[int, int]", "Dict[Any, Any]", "DefaultDict[str, int]", "DefaultDict[Any, Any]",
+              "Dict[str, List[Any]]", "Dict[str, List[int]]", "List[int]"],
+    "empties": ["List[Any]", "List[int]", "Set[Any]", "Set[str]", "Dict[Any, Any]", "Dict[str, int]", "DefaultDict[Any, Any]", "DefaultDict[str, int]",
+                "Iterator[Any]", "Generator[int, NoneType, NoneType]", "Tuple[()]", "Tuple[int]", "NoneType", "int"],
+}
+WRAPPERS = ["{u}", "List[{u}]", "Dict[str, {u}]", "Tuple[int, {u}]", "TD({{'f': {u}}}, {{}})", "Optional[List[{u}]]", "Iterator[{u}]", "DefaultDict[str, {u}]"]
+
+
+def neighbourhood_exprs(rng, sampled_per_pool=150):
+    """Ordered selections (Union keeps member order, and rewriters walk members in order): all of size 2 and 3 per pool,
+    a seeded sample of sizes 4..7; a seeded part of them nested under every wrapper."""
+    out = []
+    for name, pool in NEIGHBOURHOODS.items():
+        for n in (2, 3):
+            for combo in itertools.permutations(pool, n):
+                out.append(_union(list(combo)))
+        for _ in range(sampled_per_pool):
+            n = rng.choice([4, 5, 6, 6, 7])
+            out.append(_union(rng.sample(pool, min(n, len(pool)))))
+    nested = [w.format(u=u) for u in rng.sample(out, min(len(out), sampled_per_pool * 4)) for w in rng.sample(WRAPPERS[1:], 2)]
+    return out + nested
